@@ -116,7 +116,7 @@ theorem project_wrun (host : Host) (j : Nat) (steps : List (CAct × Nat)) :
     obtain ⟨c, i⟩ := s
     obtain ⟨h1, h2⟩ := wstep_get host ts c i j t ht
     have hij : (i == j) = (j == i) := BEq.comm
-    simp only [wrun, List.zip_cons_cons, project, actsFor, entries_cons]
+    simp only [wrun, List.zip_cons_cons, project, actsFor]
     rw [hij, entryOf_eq_entry, h2]
     congr 1
     have := ih (wstep host ts c i).1 _ h1 (inv_step _ _ _ hi)
